@@ -525,8 +525,9 @@ def views(tier, rng, count):
         if route[0] == "RD 0":
             ops += probes + ([f"GS 0 {rng.randrange(len(entries))}"])
         ops += ["LEN 0", "IT 0 nnnnnnnnnn", "IT 0 bbbbbbbbbb", "ST 0 nbnbnb"] + [f"TR 0 {j}" for j in range(4)] + [f"CK 0 {len(strs)}"]
+        ops.append(f"PQ 0 {rng.choice([2, 4, 8])}")
         if len(route) > 1:
-            ops += [route[1], "IT 0 nnnnnnnnnn"] + [f"R 0 {j}" for j in range(2)]
+            ops += [route[1], "IT 0 nnnnnnnnnn"] + [f"R 0 {j}" for j in range(2)] + [f"PQ 0 {rng.choice([2, 8])}"]
         yield case(f"vw{n}", cfg(K=K, H=rng.choice(HASHERS), V=rng.choice(ROUTES), P=entries), ops)
 
 # ---------------------------------------------------------------- stream: collections (C17)
